@@ -824,10 +824,14 @@ TRUSTED = ["observation of a unit = (get_metadata().unit_number, get_text()) com
            "arbitrary well-typed lists or raise (assumed contracts; their content is C02's)",
            "construction-site and heading-iterator obligations with back end `dataflow` are decided by per-iteration event counting "
            "on the AST (contracts/c03_flow.py); an unrecognised shape is UNDECIDED"]
-ASSUMED_MODELS = ["str.strip (uninterpreted)", "str.join over a symbolic-length sequence (uninterpreted function of separator, element function, length)",
+ASSUMED_MODELS = ["xml.etree Element.find/findall/get (contracts/etree_model.py: direct children with a tag, in document order)",
+                  "re finditer / Match.start / Match.end (contracts/c16_exec.py: ordered, non-overlapping, non-empty matches inside the data)",
+                  "str.strip (uninterpreted)", "str.join over a symbolic-length sequence (uninterpreted function of separator, element function, length)",
                   "PptSlideContent.text_combined / OdpSlide.text_combined / PptxSlide.get_text / XlsSheet.get_table: pure functions of the instance"]
-NOT_CLAIMED = ["coverage of the body by the heading-section units of doc/docx/odt (only their numbering 1..m is claimed; natively observed: "
-               "a docx heading with empty text, or paragraphs before the first heading, produce no unit for the following body text)",
+NOT_CLAIMED = ["coverage of the body by the heading-section units: discharged only as the one-paragraph step contract of OdtContent.iterate_units "
+               "(contracts/c03_sections.py::odt_step); for doc / docx (and the end-to-end effect for odt) there is only the BOUNDED native "
+               "section scope, and docx documents with body text before the first heading or with a heading without text are recorded "
+               "findings (C03-docx-body-before-first-heading, C03-docx-heading-without-text) excluded from that scope",
                "get_full_text of ppt/xls/rtf/doc/docx/odt (the statement lists eleven formats; these six are documented otherwise)",
                "end-to-end extraction (that page.text IS the text of PDF page k etc.) is C02's; here unit k == element k of the content object "
                "and element k == source item k at the construction sites"]
@@ -839,4 +843,6 @@ ASSUMPTIONS = ["DT-TYPED: fields of the content dataclasses hold values of their
                "PY-RE: compiled-pattern .sub is total and uninterpreted",
                "PY-GEN: generator = procedure appending to the ghost sequence of unit observations",
                "PY-STR", "PY-EXC / EXC-ANY"]
-BOUNDED = []
+BOUNDED = ["C03/replay::heading-sections[DocContent|DocxContent|OdtContent]/bounded#body-text-in-the-unit-of-its-section.BOUNDED: every document of "
+           "<= 5 paragraphs over {h1, h2 (fixed, hence repeated, texts), heading without text, body paragraph with distinct / repeated text, "
+           "empty paragraph} built natively and compared with the section spec of replay/C03.py (never counted as discharged)"]
